@@ -96,7 +96,7 @@ def run(ctx):
             x, v, st, kw, an = rp["input"].split()
             cases = [(rp["input"], rp.get("lang", 0), "replay", bytes.fromhex(x), (int(v), int(st), int(kw), int(an)))]
 
-    ca, crashes = common.run_lines(harness, [c[0] for c in cases])
+    ca, crashes = common.run_lines(harness, [c[0] for c in cases], timeout=1200)
     # model on the C's tree
     mlines, midx = [], []
     for i, a in enumerate(ca):
@@ -104,7 +104,7 @@ def run(ctx):
             tree = a.partition(" | ")[0][5:]
             mlines.append("%d %d %d %d %s" % (cases[i][4] + (tree,)))
             midx.append(i)
-    ma, mcr = common.run_lines(driver, mlines)
+    ma, mcr = common.run_lines(driver, mlines, timeout=1200)
     model = dict(zip(midx, ma))
 
     concrete, corr = [], []
@@ -142,7 +142,7 @@ def run(ctx):
             enc_status[cw] = enc_status.get(cw, 0) + 1
     # third oracle: the proved strict decoder of the parser development (Spec.decode_lang, driver C04) on the C's bytes
     d04 = common.build_driver("C04")
-    sa, scr = common.run_lines(d04, ["strict %d %s" % (j[2], j[1].hex() if j[1] else "-") for j in jobs])
+    sa, scr = common.run_lines(d04, ["strict %d %s" % (j[2], j[1].hex() if j[1] else "-") for j in jobs], timeout=1200)
     with ProcessPoolExecutor(common.NPROC, initializer=_init, initargs=(tj,)) as ex:
         verdicts = list(ex.map(_judge, jobs, chunksize=64))
         verdicts3 = list(ex.map(_judge3, [(j[0], a, j[2], j[5]) for j, a in zip(jobs, sa)], chunksize=64))
